@@ -53,6 +53,8 @@ pub enum GOp {
     Yield,
     Spawn(Vec<GOp>),
     Join(Vec<GOp>, Vec<GOp>),
+    /// run both programs concurrently; when the first one finishes the other is dropped
+    Select(Vec<GOp>, Vec<GOp>),
     /// sleep until `Wake` with the same slot ran; the task's waker is stashed in the slot
     Sleep { slot: u8 },
     Wake { slot: u8, times: u8 },
@@ -172,8 +174,8 @@ impl Env {
                     dealloc_lists_and_own: 0,
                     results_lift: 0,
                     started_seen_params_alive: None,
+                    cancel_late: *imm >= 3,
                 });
-                let _ = imm;
             });
         }
         Rc::new(env)
@@ -401,6 +403,10 @@ async fn step(env: &Rc<Env>, op: GOp) {
         GOp::Spawn(p) => run(env.clone(), p).await,
         GOp::Join(a, b) => {
             futures::future::join(run(env.clone(), a), run(env.clone(), b)).await;
+        }
+        GOp::Select(a, b) => {
+            // the loser is dropped in the same poll that completes the winner
+            let _ = futures::future::select(run(env.clone(), a), run(env.clone(), b)).await;
         }
         GOp::Sleep { slot } => {
             let slot = slot as usize % 4;
@@ -827,7 +833,7 @@ async fn op_call(env: &Rc<Env>, s: u8, how: &How) {
     if std::mem::replace(&mut env.sub_used.borrow_mut()[idx], true) {
         return;
     }
-    let mut imp = Imp { idx, imm: env.sub_imm[idx] };
+    let mut imp = Imp { idx, imm: env.sub_imm[idx] % 3 };
     let vid = env.vids(1, false)[0];
     let mut fut = Box::pin(imp.call(Tok::make(vid)));
     let got = match how {
